@@ -104,6 +104,39 @@ func runAccess(c runCfg) error {
 					}
 				}
 				fn := fd.Name.Name
+				// a VALUE receiver is a shallow copy: storing into an element of one of its slices or maps writes into backing
+				// storage the caller's value shares (and with it every request that was handed the same value)
+				if fd.Recv != nil && len(fd.Recv.List) == 1 && len(fd.Recv.List[0].Names) == 1 {
+					if _, isPtr := fd.Recv.List[0].Type.(*ast.StarExpr); !isPtr {
+						vrecv, _ := p.TypesInfo.Defs[fd.Recv.List[0].Names[0]].(*types.Var)
+						var rooted func(e ast.Expr) bool
+						rooted = func(e ast.Expr) bool {
+							switch x := e.(type) {
+							case *ast.Ident:
+								return vrecv != nil && p.TypesInfo.Uses[x] == vrecv
+							case *ast.SelectorExpr:
+								return rooted(x.X)
+							case *ast.IndexExpr:
+								return rooted(x.X)
+							case *ast.ParenExpr:
+								return rooted(x.X)
+							}
+							return false
+						}
+						ast.Inspect(fd.Body, func(n ast.Node) bool {
+							as, ok := n.(*ast.AssignStmt)
+							if !ok || as.Tok == token.DEFINE {
+								return true
+							}
+							for _, l := range as.Lhs {
+								if ix, ok := l.(*ast.IndexExpr); ok && rooted(ix.X) {
+									note("AWriteField", fmt.Sprintf("%s: an element reachable from the value receiver is stored to in %s (package %s): %s", fname, fn, p.Name, types.ExprString(l)))
+								}
+							}
+							return true
+						})
+					}
+				}
 				// identifiers in written position: base of an assignment target, ++/--, operand of &
 				written := map[*ast.Ident]bool{}
 				var base func(e ast.Expr) *ast.Ident
